@@ -29,6 +29,20 @@ type Scenario struct {
 	Horizon int
 	Shards  int // worker processes for the final bound (0 = 1)
 	Setup   func() // process-level switches (PoolChoice, LimitChoice …), run in the worker
+	Fine    bool   // statement-level scheduling points (vrt.Fine) are live in this scenario
+}
+
+// WithFine returns, for every scenario, a copy named "<name>+stmt" in which the statement-level
+// scheduling points of the check's fine.txt files are live, explored up to deviation bound p.
+func WithFine(scs []Scenario, p int) []Scenario {
+	var out []Scenario
+	for _, sc := range scs {
+		sc.Name += "+stmt"
+		sc.Fine = true
+		sc.P = p
+		out = append(out, sc)
+	}
+	return out
 }
 
 var workerFlag = flag.String("worker", "", "internal: scenario|P|E|shard|shards|deadlineUnix")
@@ -53,8 +67,19 @@ func find(scs []Scenario, name string) *Scenario {
 			return &scs[i]
 		}
 	}
+	if base := strings.TrimSuffix(name, "+stmt"); base != name {
+		if sc := find(scs, base); sc != nil {
+			f := WithFine([]Scenario{*sc}, sc.P)
+			return &f[0]
+		}
+	}
 	return nil
 }
+
+// FineP, when positive, makes Run also explore every scenario with the statement-level
+// scheduling points live (see WithFine) up to that deviation bound, provided the check was built
+// with a fine.txt (VERIF_FINE names the files).
+var FineP int
 
 // IsWorker tells a check's main whether it was started as a worker (before building a Report).
 func IsWorker() bool {
@@ -90,6 +115,7 @@ func RunWorker(scs []Scenario) {
 	if sc.Setup != nil {
 		sc.Setup()
 	}
+	vrt.FineOn = sc.Fine
 	ex := &vrt.Explorer{Body: sc.Body, PBound: p, EBound: e, Horizon: sc.Horizon, Shard: shard, Shards: shards,
 		Deadline: time.Unix(dl, 0)}
 	res := ex.Explore()
@@ -120,6 +146,7 @@ func Replay(scs []Scenario, path string) {
 	if sc.Setup != nil {
 		sc.Setup()
 	}
+	vrt.FineOn = sc.Fine
 	x := vrt.RunOne(sc.Body, outer.Replay.Choices, sc.Horizon, true)
 	for _, l := range x.Trace {
 		fmt.Println(l)
@@ -153,6 +180,9 @@ type job struct {
 func Run(rep *report.Report, scs []Scenario) {
 	if rep.ReplayArg != "" {
 		Replay(scs, rep.ReplayArg)
+	}
+	if FineP > 0 && strings.Trim(os.Getenv("VERIF_FINE"), ", ") != "" {
+		scs = append(append([]Scenario{}, scs...), WithFine(scs, FineP)...)
 	}
 	self, _ := os.Executable()
 	var jobs []job
@@ -285,6 +315,7 @@ func validate(sc *Scenario, v vrt.Violation, rf replayFile) {
 	if sc.Setup != nil {
 		sc.Setup()
 	}
+	vrt.FineOn = sc.Fine
 	var obs [2]string
 	for i := 0; i < 2; i++ {
 		x := vrt.RunOne(sc.Body, v.Choices, sc.Horizon, false)
